@@ -4,6 +4,7 @@ def b_LaneletStopLine_create_node : CR.SrcW.Builder where
   kind := .node
   tag := "stopLine"
   xsd := "stopLine"
+  path := []
   parent := ""
   attrs := []
   gattrs := []
